@@ -503,6 +503,19 @@ class _Fold(ast.NodeTransformer):
     """Constant folding of literal container indexing: [a, b][0] -> a; and unrolling of a list
     comprehension over a literal index set: [f(i) for i in (0, 1)] -> [f(0), f(1)]."""
 
+    def visit_JoinedStr(self, node: ast.JoinedStr):
+        # f"{'row'}_proportion_variances" (a class constant already substituted) is the literal 'row_proportion_variances'
+        self.generic_visit(node)
+        parts = []
+        for v in node.values:
+            if isinstance(v, ast.Constant) and isinstance(v.value, str):
+                parts.append(v.value)
+            elif isinstance(v, ast.FormattedValue) and v.conversion == -1 and v.format_spec is None and isinstance(v.value, ast.Constant) and isinstance(v.value.value, (str, int)):
+                parts.append(str(v.value.value))
+            else:
+                return node
+        return ast.Constant(value="".join(parts))
+
     def visit_Call(self, node: ast.Call):
         self.generic_visit(node)
         # getattr(x, "name") with a literal name is the attribute read x.name
